@@ -68,6 +68,21 @@ CHECKS = {
    text="Every sequence of 4 (quick) / 5 (thorough) operations over 34 concrete operations on live variants and a caller-side list (construct, SetAsArray, VariantFromArray, Assign, Clone, NewVariant(variant), SetByIndex at 0/len/len+2, SetLength, Clear, SetAsInteger, caller-side list mutation), and random sequences up to 40 over 62 operations, are applied to real variants and to a value model; after every step all live variants are read back and Equals is evaluated on all pairs (total, symmetric, equal to model equality, clone equals original). A host-value sub-check covers all 15 Go host types at boundary values.",
    note="Aliasing created by Assign of an array, in-place mutation of element variants, shrinking SetLength and Equals of date-times are don't-care.",
    ref="DESIGN.md §3 C20"),
+ "C01": dict(
+   technique="runtime monitor: differential against direct evaluation of generated syntax trees with the same variant operations; compiled program compared with the tree's post-order",
+   text="Syntax trees are generated from the grammar (typed trees whose values discriminate shapes, and uniform shape trees filling the complete 22x22x2 table of parent/child/side operator pairs), printed four ways (minimal, full parentheses, random parentheses/spacing/comments/keyword case, tight), set on a real calculator and evaluated under variable assignments; the monitor compares the compiled program with the tree's post-order and the result (type, value or error code) with a direct evaluation of the tree that applies the manager's variant operations in written operand order. Every token string up to length 5 (quick) / 7 (thorough) over a 14-token alphabet accepted by an independent tabular parser is checked the same way.",
+   note="Operator arithmetic itself is C06's business and function bodies C08's (both are called, not re-implemented). Don't-care: the value of LIKE nodes, a sign and an index on the same primary, clock/random functions.",
+   ref="DESIGN.md §3 C01"),
+ "C02": dict(
+   technique="runtime monitor: accept/reject and compiled-program oracle from an independent tabular (span-memoised) reference parser over exhaustively enumerated token sequences",
+   text="Every token sequence of length 1..4 (quick) / 1..5 (thorough) over a 23-symbol vocabulary and of length up to 5 / 7 over the 12 symbols that carry brackets and the multi-token operators is rendered and given to the real parser; a tabular reference parser for the grammar (not recursive descent) decides whether it is a sentence and what its tree is; sentences must be accepted and compiled to the tree's post-order, everything else must be rejected with an error that carries a code, never a panic. Token-level mutations (insert, delete, replace, swap, duplicate) of generated valid expressions extend the reach.",
+   note="Only a trailing comma before ')' is left open (documented don't-care). Lexing is not in play (single blanks); that is C13.",
+   ref="DESIGN.md §3 C02"),
+ "C18": dict(
+   technique="runtime monitor: generator-known identifier positions and an ordered-list model compared with the real parser, calculator and collections",
+   text="Expression trees that reuse a small identifier pool in different letter case, as function and as variable, quoted and inside strings are printed four ways; VariableNames() must be the identifiers in variable position in first-occurrence order and automatic variables must leave exactly one entry per name while keeping pre-existing entries and values; resolution (first added wins, case-insensitive) and missing-name errors are enumerated; every sequence of 5 (quick) / 6 (thorough) collection operations plus random longer ones is compared with an ordered-list model after every step, for variable and function collections. A template sub-check does the same for mustache variable names.",
+   note="Out-of-range indexes for Get/Remove are preconditions; identifiers outside ASCII/Latin-1/Cyrillic are not generated.",
+   ref="DESIGN.md §3 C18"),
 }
 
 NOT_YET = {}
